@@ -149,21 +149,12 @@ def check_postprocessing(ctx):
         ctx.fn(f"build_epr.{fname}")
         p = A.param_names(fn)[0]
         t = {}
-        cur = fn.body[0] if fn.body and isinstance(fn.body[0], ast.If) else None
-        for st in fn.body:
-            if isinstance(st, ast.If):
-                cur = st
-                break
-        while isinstance(cur, ast.If):
-            test = cur.test
-            if isinstance(test, ast.Compare) and len(test.ops) == 1 and isinstance(test.ops[0], ast.Eq) and A.norm(test.left) == p:
-                key = ev.try_eval(test.comparators[0], m)
-                rets = [s for s in cur.body if isinstance(s, ast.Return)]
-                val = ev.try_eval(rets[0].value, m) if rets else None
-                k = key.name if isinstance(key, EnumMember) else key
-                v = val.name if isinstance(val, EnumMember) else val
-                t[k] = v
-            cur = cur.orelse[0] if len(cur.orelse) == 1 and isinstance(cur.orelse[0], ast.If) else None
+        for kx, vx in A.case_returns(fn, p):
+            key = ev.try_eval(kx, m)
+            val = ev.try_eval(vx, m) if vx is not None else None
+            k = key.name if isinstance(key, EnumMember) else key
+            v = val.name if isinstance(val, EnumMember) else val
+            t[k] = v
         tables[fname] = t
     r2b, b2r = tables["rotation_to_basis"], tables["basis_to_rotation"]
     for bn in bases:
@@ -194,18 +185,12 @@ def check_postprocessing(ctx):
         raise AnalysisError("EprMeasureResult.measurement_outcome not found")
     ctx.fn("EprMeasureResult.measurement_outcome")
     flips: Dict[str, set] = {}
-    chain = None
-    for n in ast.walk(mo):
-        if isinstance(n, ast.If) and isinstance(n.test, ast.Compare) and A.norm(n.test.left) == "self.bell_state":
-            chain = n
-            break
-    cur = chain
     basis_var = None
-    while isinstance(cur, ast.If):
-        st = ev.try_eval(cur.test.comparators[0], m)
+    for kx, body in A.case_bodies(mo, "self.bell_state"):
+        st = ev.try_eval(kx, m)
         name = st.name if isinstance(st, EnumMember) else None
         fl = set()
-        for s in cur.body:
+        for s in body:
             if isinstance(s, ast.If) and isinstance(s.test, ast.Compare) and isinstance(s.test.ops[0], ast.In):
                 basis_var = A.norm(s.test.left)
                 lst = ev.try_eval(s.test.comparators[0], m)
@@ -214,7 +199,6 @@ def check_postprocessing(ctx):
                     fl |= {e.name for e in lst if isinstance(e, EnumMember)}
         if name:
             flips[name] = fl
-        cur = cur.orelse[0] if len(cur.orelse) == 1 and isinstance(cur.orelse[0], ast.If) else None
     n_entries = 0
     for sname in ("PHI_PLUS", "PHI_MINUS", "PSI_PLUS", "PSI_MINUS"):
         corr = CORRECTION[sname]
